@@ -106,3 +106,44 @@ Section ComposeProofs.
       exists v, raw, t, id, sec, ct. repeat split; auto.
   Qed.
 End ComposeProofs.
+
+(* C16 over the composition: with reverse-proxy mode off (the request is not marked proxied and the
+   trusted-IP decision reads the peer address), two requests that differ only in what forwarding
+   headers carry - the forwarded URI and the client-IP header - get the same answer. *)
+Section NonInterference.
+  Variable mac : str -> str.
+  Variable matches : nat -> str -> bool.
+  Variable parse_uri_path : str -> option str.
+  Variable parse_ip : str -> option N.
+  Variable decode_session : str -> option asession.
+
+  Definition same_but_forwarding (a b : breq) : Prop :=
+    b_method a = b_method b /\ b_request_uri a = b_request_uri b /\ b_remote_addr a = b_remote_addr b /\
+    b_proxied a = false /\ b_proxied b = false.
+
+  Lemma bypassed_ignores_forwarding d r r' :
+    d_use_header d = false -> same_but_forwarding (r_b r) (r_b r') ->
+    bypassed matches parse_uri_path parse_ip d r = bypassed matches parse_uri_path parse_ip d r'.
+  Proof.
+    intros Hu (Hm & Huri & Hra & Hp & Hp'). unfold bypassed, is_allowed_request. rewrite Hu.
+    rewrite (trusted_ip_remote_only parse_ip (d_trusted d) (r_b r) (r_b r') Hra).
+    f_equal. f_equal; [rewrite Hm; reflexivity|].
+    unfold is_allowed_route.
+    assert (Hext : forall rt, allowed_method (r_b r) rt && allowed_path matches parse_uri_path (r_b r) rt =
+                              allowed_method (r_b r') rt && allowed_path matches parse_uri_path (r_b r') rt).
+    { intro rt. unfold allowed_method, allowed_path. rewrite Hm.
+      rewrite (request_path_not_proxied parse_uri_path (r_b r) Hp), (request_path_not_proxied parse_uri_path (r_b r') Hp'), Huri.
+      reflexivity. }
+    induction (d_routes d) as [|rt l IH]; [reflexivity|]. cbn [existsb]. rewrite Hext, IH. reflexivity.
+  Qed.
+
+  Theorem serve_request_ignores_forwarding ep d r r' :
+    d_use_header d = false -> same_but_forwarding (r_b r) (r_b r') ->
+    r_cookies r = r_cookies r' -> r_now r = r_now r' -> r_bearer r = r_bearer r' -> r_basic r = r_basic r' -> r_p r = r_p r' ->
+    Compose.serve_request mac matches parse_uri_path parse_ip decode_session ep d r =
+    Compose.serve_request mac matches parse_uri_path parse_ip decode_session ep d r'.
+  Proof.
+    intros Hu Hs Hc Hn Hb Hk Hp. unfold Compose.serve_request, Compose.stored_credential.
+    rewrite (bypassed_ignores_forwarding d r r' Hu Hs), Hc, Hn, Hb, Hk, Hp. reflexivity.
+  Qed.
+End NonInterference.
